@@ -1,7 +1,7 @@
 from corr import kern_family
 from oracles import c14 as oracle
 
-GEN = ["Const"]
+GEN = ["Const", "Tol"]
 LEAN_TARGETS = ["MagpyVerif.Props.C14"]
 PROPS = ["MagpyVerif.Props.C14"]
 NOT_SHOWN = {
